@@ -13,6 +13,22 @@
     fill                     cfg k <bytes>          `try_fill_slice(&mut [T; k], rng)` (k decimal)
     fill_each                cfg k <bytes>          k successive `rng.gen::<T>()` (same answer as `fill`)
     check_in_range           cfg low high x incl    incl = `1`: low ≤ x ≤ high, `0`: low ≤ x < high
+                                                    (`Range(Inclusive)::contains` on the crate's `PartialOrd`)
+    sampler_new(_inclusive)  cfg low high <bytes>   `UniformInt::new(_inclusive)(low, high).sample(rng)` (the
+                                                    `UniformSampler` methods called directly)
+    uniform_from(_inclusive) cfg low high <bytes>   `rng.sample(Uniform::from(low..high))` / `(low..=high)`
+    uniform_many             cfg incl low high k <bytes>   ONE `Uniform::new(_inclusive)(low, high)`, `k` draws
+    fill_trait | rng_fill | rng_try_fill  cfg k <bytes>    `Fill::try_fill(Slice<T>)`, `rng.fill(..)`,
+                                                    `rng.try_fill(..)` on the `Slice<T>` wrapper (same answer as `fill`)
+    enum_words               cfg which low high     COMPLETE ENUMERATION (BITS ≤ 16 only): every one of the
+        `2^BITS` RNG words `v`, each as the stream `v ++ 0` (the zero word is accepted by every range),
+        through `which` = `ssi` sample_single_inclusive | `ss` sample_single | `gri`/`gr` gen_range |
+        `uni`/`un` one stored `Uniform::new(_inclusive)` sampled `2^BITS` times.
+        Answer `rej=R;vals=V;min=A;max=B;h=H`: R words rejected, V distinct values returned for an accepted
+        word, A/B smallest/largest number of accepted words mapped to one of them (unbiased ⇔ A = B),
+        H = Σ (v+1)·(code_v+1), code_v = returned pattern (+ 2^BITS when `v` was rejected).
+    <op>_err                 same request as <op>; the scripted RNG's `try_fill_bytes` returns `Err`
+                                                    instead of panicking when it runs out (same answers)
   Answers: `S(x)@c` (value pattern `x`, `c` = bytes consumed, decimal); `[a,b,…]@c` for `fill`;
   `P` = panic (empty range); `exhausted` = the stream ran out; `true`/`false` for check_in_range.
   The operators that depend on `cfg(debug_assertions)` never overflow here (proved), so there is
@@ -25,6 +41,8 @@ import Bnum.Drive.Util
 import Bnum.Model.Random
 import Bnum.Model.RandomD
 import Bnum.Spec.Random
+import Bnum.Model.C20Extra
+import Bnum.Spec.C20Extra
 namespace Bnum.Drive.C20
 open Bnum Bnum.Drive
 
@@ -40,7 +58,42 @@ private def showDrawS (c : Cfg) : Option (Option (Int × Nat)) → String
 
 private def showList (xs : List String) : String := "[" ++ ",".intercalate xs ++ "]"
 
+private def showDrawsD (c : Cfg) (total : Nat) : Outcome RandD.Draws → String
+  | .panic => "P"
+  | .ok none => "exhausted"
+  | .ok (some (xs, rest)) => showList (xs.map (showVal c)) ++ "@" ++ toString (total - rest.length)
+
+/-- digest of a complete enumeration of the `2^bits` words; `f stream` = `none` (panic) |
+    `some none` (exhausted) | `some (some (pattern, bytes consumed))` -/
+private def enumDigest (bits bytes : Nat) (f : List Nat → Option (Option (Nat × Nat))) : String := Id.run do
+  let m := 2 ^ bits
+  let mut cnt : Array Nat := Array.replicate m 0
+  let mut rej := 0
+  let mut h := 0
+  let zeros := List.replicate bytes 0
+  for v in [0:m] do
+    match f (ofNat 8 bytes v ++ zeros) with
+    | none => return "P"
+    | some none => return "exhausted"
+    | some (some (x, used)) =>
+      if used == bytes then
+        cnt := cnt.modify x (· + 1)
+        h := h + (v + 1) * (x + 1)
+      else
+        rej := rej + 1
+        h := h + (v + 1) * (m + x + 1)
+  let mut vals := 0
+  let mut mn := 0
+  let mut mx := 0
+  for k in cnt do
+    if k > 0 then
+      vals := vals + 1
+      mn := if mn == 0 then k else min mn k
+      mx := max mx k
+  return s!"rej={rej};vals={vals};min={mn};max={mx};h={h}"
+
 def handle : Handler := fun c op args =>
+  let op := if op.endsWith "_err" then String.ofList (op.toList.take (op.length - 4)) else op
   let w := c.w
   let n := c.n
   let m := M w n
@@ -53,6 +106,15 @@ def handle : Handler := fun c op args =>
       if lo ≤ hi then some (Spec.Random.sampleInclusive sg m bytes zone lo hi s) else none
     else
       if lo < hi then some (Spec.Random.sampleInclusive sg m bytes zone lo (hi - 1) s) else none
+  let fillAns (k bs : String) : Option (String × String) := do
+    let k ← k.toNat?; let s ← parseBytes bs
+    let mo := match Rand.fillSlice w n k s with
+      | none => "exhausted"
+      | some (xs, rest) => showList (xs.map (showVal c)) ++ "@" ++ toString (s.length - rest.length)
+    let sp := match Spec.Random.fill bytes k s with
+      | none => "exhausted"
+      | some (vs, cnt) => showList (vs.map toHex) ++ "@" ++ toString cnt
+    some (mo, sp)
   match op, args with
   | "sample_single", [lo, hi, bs] => do
     let lo ← parseVal c lo; let hi ← parseVal c hi; let s ← parseBytes bs
@@ -87,15 +149,7 @@ def handle : Handler := fun c op args =>
       | none => "exhausted"
       | some (v, cnt) => "S(" ++ toHex v ++ ")@" ++ toString cnt
     some (mo, sp)
-  | "fill", [k, bs] => do
-    let k ← k.toNat?; let s ← parseBytes bs
-    let mo := match Rand.fillSlice w n k s with
-      | none => "exhausted"
-      | some (xs, rest) => showList (xs.map (showVal c)) ++ "@" ++ toString (s.length - rest.length)
-    let sp := match Spec.Random.fill bytes k s with
-      | none => "exhausted"
-      | some (vs, cnt) => showList (vs.map toHex) ++ "@" ++ toString cnt
-    some (mo, sp)
+  | "fill", [k, bs] => fillAns k bs
   | "fill_each", [k, bs] => do
     let k ← k.toNat?; let s ← parseBytes bs
     let mo := match Rand.genMany w n k s with
@@ -105,6 +159,65 @@ def handle : Handler := fun c op args =>
       | none => "exhausted"
       | some (vs, cnt) => showList (vs.map toHex) ++ "@" ++ toString cnt
     some (mo, sp)
+  | "sampler_new", [lo, hi, bs] => do
+    let lo ← parseVal c lo; let hi ← parseVal c hi; let s ← parseBytes bs
+    some (showDrawD c s.length (RandD.uniformNewSample sg true w n lo hi s),
+          showDrawS c (specSample (Spec.Random.zoneExact m) (valOf c lo) (valOf c hi) false s))
+  | "uniform_from", [lo, hi, bs] => do
+    let lo ← parseVal c lo; let hi ← parseVal c hi; let s ← parseBytes bs
+    some (showDrawD c s.length (RandD.uniformNewSample sg true w n lo hi s),
+          showDrawS c (specSample (Spec.Random.zoneExact m) (valOf c lo) (valOf c hi) false s))
+  | "sampler_new_inclusive", [lo, hi, bs] => do
+    let lo ← parseVal c lo; let hi ← parseVal c hi; let s ← parseBytes bs
+    some (showDrawD c s.length (RandD.uniformNewInclusiveSample sg true w n lo hi s),
+          showDrawS c (specSample (Spec.Random.zoneExact m) (valOf c lo) (valOf c hi) true s))
+  | "uniform_from_inclusive", [lo, hi, bs] => do
+    let lo ← parseVal c lo; let hi ← parseVal c hi; let s ← parseBytes bs
+    some (showDrawD c s.length (RandD.uniformNewInclusiveSample sg true w n lo hi s),
+          showDrawS c (specSample (Spec.Random.zoneExact m) (valOf c lo) (valOf c hi) true s))
+  | "uniform_many", [incl, lo, hi, k, bs] => do
+    let incl ← parseBool incl
+    let lo ← parseVal c lo; let hi ← parseVal c hi; let k ← k.toNat?; let s ← parseBytes bs
+    let l := valOf c lo
+    let h := valOf c hi
+    let sp :=
+      if (if incl then l ≤ h else l < h) then
+        match Spec.Random.sampleManyInclusive sg m bytes (Spec.Random.zoneExact m) l
+            (if incl then h else h - 1) k s with
+        | none => "exhausted"
+        | some (xs, cnt) => showList (xs.map (showInt c)) ++ "@" ++ toString cnt
+      else "P"
+    some (showDrawsD c s.length (RandD.uniformMany sg true incl w n lo hi k s), sp)
+  | "fill_trait", [k, bs] => fillAns k bs
+  | "rng_fill", [k, bs] => fillAns k bs
+  | "rng_try_fill", [k, bs] => fillAns k bs
+  | "enum_words", [which, lo, hi] => do
+    let lo ← parseVal c lo; let hi ← parseVal c hi
+    if bits > 16 then none else
+    let l := valOf c lo
+    let h := valOf c hi
+    let viewD (total : Nat) : Outcome RandD.Draw → Option (Option (Nat × Nat))
+      | .panic => none
+      | .ok none => some none
+      | .ok (some (x, rest)) => some (some (U w x, total - rest.length))
+    let viewS : Option (Option (Int × Nat)) → Option (Option (Nat × Nat))
+      | none => none
+      | some none => some none
+      | some (some (z, cnt)) => some (some (wrapU m z, cnt))
+    let single (f : List Nat → List Nat → Rand.Stream → Outcome RandD.Draw) (incl : Bool) :=
+      some (enumDigest bits bytes (fun s => viewD s.length (f lo hi s)),
+            enumDigest bits bytes (fun s => viewS (specSample (Spec.Random.zoneSingle bits m) l h incl s)))
+    let stored (u : Outcome RandD.UniformInt) (incl : Bool) :=
+      some (enumDigest bits bytes (fun s => viewD s.length (u.bind fun u => RandD.sample sg true w n u s)),
+            enumDigest bits bytes (fun s => viewS (specSample (Spec.Random.zoneExact m) l h incl s)))
+    match which with
+    | "ssi" => single (RandD.sampleSingleInclusive sg true w n) true
+    | "ss" => single (RandD.sampleSingle sg true w n) false
+    | "gri" => single (RandD.genRangeInclusive sg true w n) true
+    | "gr" => single (RandD.genRange sg true w n) false
+    | "uni" => stored (RandD.newInclusive sg true w n lo hi) true
+    | "un" => stored (RandD.new sg true w n lo hi) false
+    | _ => none
   | "check_in_range", [lo, hi, x, incl] => do
     let lo ← parseVal c lo; let hi ← parseVal c hi; let x ← parseVal c x; let incl ← parseBool incl
     let mo := Rand.le sg m (U w lo) (U w x) &&
